@@ -290,6 +290,8 @@ class Worker(threading.Thread):
                 elif t == 'R':
                     parts = ln.split()
                     r = int(parts[1])
+                    if self.inflight_since:
+                        pool.note_duration(r, time.time() - self.inflight_since)
                     pool.add_result(r, parts[2], parts[3] == '1', int(parts[4]), pending_v)
                     pending_v = None
                     self.inflight = None
@@ -337,6 +339,7 @@ class Pool:
         self.nworkers = nworkers
         self.stop_after_sigs = cfg.get('stop_after_violations', 12)
         self.worker_errors = []
+        self.durations = []
 
     def next_chunk(self):
         with self.lock:
@@ -364,6 +367,13 @@ class Pool:
             self.results[r] = (h, nontriv, steps)
             if v is not None:
                 self.violations[r] = v
+
+    def note_duration(self, r, d):
+        with self.lock:
+            self.durations.append((d, r))
+            if len(self.durations) > 4000:
+                self.durations.sort(reverse=True)
+                del self.durations[50:]
 
     def add_summary(self, s):
         with self.lock:
@@ -557,6 +567,9 @@ def main(argv):
             all_viol[(binary, r)] = v
         summaries += pool.summaries
         per_binary.append((binary, len(pool.results), time.time() - pool.t0))
+        slow = sorted(pool.durations, reverse=True)[:5]
+        if slow and slow[0][0] > 10:
+            log('slowest runs: ' + ', '.join('run %d %.0fs' % (r, d) for d, r in slow))
     run_wall = time.time() - t0
     counters, states, steps, events, _ = merge_counters(summaries)
     if not all_results:
